@@ -134,7 +134,11 @@ class C11(Property):
             ctx.require(rel_close(r2.volume, r1.volume, 1e-12) and rel_close(r2.position, r1.position, 1e-12, scale), "not-commutative", f"a.merge(b)={r1} b.merge(a)={r2}")
             # compiled path
             out = np.record(np.zeros_like(a.data))
-            self.jit[spec["cls"]](a.data, b.data, out)
+            try:
+                self.jit[spec["cls"]](a.data, b.data, out)
+            except Exception as exc:  # noqa: BLE001 - raised inside compiled library code (no python frame)
+                ctx.fail(f"compiled-raises:{type(exc).__name__}", f"compiled merge of r={ra},{rb} raised {type(exc).__name__}: {exc}")
+                return
             r3 = cls.from_data(out)
             ctx.require(a.data.tobytes() == snap_a and b.data.tobytes() == snap_b, "operand-modified:compiled", "compiled merge modified an operand")
             ctx.require(rel_close(r3._data_array, r1._data_array, 1e-13, np.maximum(np.abs(r1._data_array), scale)), "paths-differ:compiled", f"compiled {r3} vs python {r1}")
